@@ -1,5 +1,5 @@
 (* Props/C12.v — property C12: sampling is exact inverse-CDF selection in stored outcome order. *)
-From Verif Require Import Prelude C12_Model C12_Proofs.
+From Verif Require Import Prelude C12_Model C12_Proofs PyLang Sampling_Gen C12_Refine.
 From Coq Require Import Lqa.
 Open Scope Q_scope.
 
@@ -58,3 +58,57 @@ Theorem C12_rand_gen_length : forall {T} (sample : list T -> T -> nat) ps st n, 
   length (fst (rand_gen sample ps st n)) = n /\ length (snd (rand_gen sample ps st n)) = (length st - n)%nat.
 Proof. exact @rand_gen_length. Qed.
 Print Assumptions C12_rand_gen_length.
+
+(* ------------------------------------------------------------------------------------------ *)
+(* Tie to the source by translation: the functions of dit/math/sampling.py, translated from /repo's
+   current source on every run (Gen/Sampling_Gen.v) into the deep-embedded language of Core/PyLang.v,
+   compute the model above for every pmf and every random number, over any numeric carrier whose
+   [ofZ 0] is its zero (exact rationals and binary64 floats alike). *)
+Theorem C12_source_last_positive_is_model :
+  forall (T : Type) add sub mul ltb leb eqb (ofZ : Z -> T) zero, ofZ 0%Z = zero ->
+  forall ps, ps <> [] ->
+  run add sub mul ltb leb eqb ofZ fenv0 sampling_last_positive [VArr (vlist ps)] =
+  Some (VInt (Z.of_nat (last_positive ltb zero ps))).
+Proof.
+  intros T add sub mul ltb leb eqb ofZ zero H0 ps Hne.
+  rewrite (last_positive_run add sub mul ltb leb eqb ofZ zero H0).
+  rewrite (lp_value_model ltb zero) by exact Hne. reflexivity.
+Qed.
+Print Assumptions C12_source_last_positive_is_model.
+
+Theorem C12_source_sample_is_model :
+  forall (T : Type) add sub mul ltb leb eqb (ofZ : Z -> T) zero, ofZ 0%Z = zero ->
+  forall ps u, ps <> [] ->
+  run add sub mul ltb leb eqb ofZ (fenv1 add sub mul ltb leb eqb ofZ) sampling_sample_discrete_python
+      [VArr (vlist ps); VNum u] =
+  Some (VInt (Z.of_nat (sample1 add ltb zero ps u))).
+Proof. exact @sample_discrete_model. Qed.
+Print Assumptions C12_source_sample_is_model.
+
+Theorem C12_source_samples_is_model :
+  forall (T : Type) add sub mul ltb leb eqb (ofZ : Z -> T) zero, ofZ 0%Z = zero ->
+  forall ps us, ps <> [] ->
+  run add sub mul ltb leb eqb ofZ (fenv1 add sub mul ltb leb eqb ofZ) sampling_samples_discrete_python
+      [VArr (vlist ps); VArr (vlist us); VNone] =
+  Some (VArr (map (fun u => VInt (Z.of_nat (sample1 add ltb zero ps u))) us)).
+Proof. exact @samples_discrete_model. Qed.
+Print Assumptions C12_source_samples_is_model.
+
+(* hence, read over the exact rationals, the translated source returns the index whose cumulative
+   interval contains u *)
+Theorem C12_source_samples_interval : forall ps us k u i, nonneg ps -> 0 <= u -> ps <> [] ->
+  nth_error us k = Some u -> qscan ps u = Some i ->
+  exists l, run Qplus Qminus Qmult (fun a b => negb (Qle_bool b a)) Qle_bool Qeq_bool inject_Z
+                (fenv1 Qplus Qminus Qmult (fun a b => negb (Qle_bool b a)) Qle_bool Qeq_bool inject_Z)
+                sampling_samples_discrete_python [VArr (vlist ps); VArr (vlist us); VNone] = Some (VArr l) /\
+            nth_error l k = Some (VInt (Z.of_nat i)) /\
+            (i < length ps)%nat /\ cum ps i <= u /\ u < cum ps (S i).
+Proof.
+  intros ps us k u i Hn Hu Hne Hk Hs.
+  eexists. split.
+  - apply (samples_discrete_model Qplus Qminus Qmult (fun a b => negb (Qle_bool b a)) Qle_bool Qeq_bool inject_Z 0 eq_refl ps us Hne).
+  - split.
+    + rewrite nth_error_map, Hk. cbn [option_map]. unfold sample1. fold qscan. rewrite Hs. reflexivity.
+    + apply scan_interval; assumption.
+Qed.
+Print Assumptions C12_source_samples_interval.
